@@ -228,7 +228,13 @@ def d_linear_bounds(f, s, R, db):
     the ranges of the loop variables in i (`0..n`, positions of `enumerate`), the definition of `min`, and the dominating comparisons."""
     from lm import linprove as LP
     t = s['term']
-    if s['kind'] == 'assert:bounds':
+    sub_goal = None
+    if s['kind'] == 'assert:overflow:Sub':
+        # a - b cannot underflow when a >= b follows from the dominating comparisons (e.g. `Ok(n) if n > 0 => n - 1`)
+        a_, b_ = _nl(R.operand(t['ops'][0])), _nl(R.operand(t['ops'][1]))
+        bound, idx = a_, b_
+        sub_goal = LP.lin_sub(X.lin(a_), X.lin(b_))
+    elif s['kind'] == 'assert:bounds':
         bound, idx = _nl(R.operand(t['ops'][0])), _nl(R.operand(t['ops'][1]))
     elif s['kind'] == 'call:generic-index' and len(t['args']) == 2:
         recv, idx = _nl(R.operand(t['args'][0])), _nl(R.operand(t['args'][1]))
@@ -293,6 +299,14 @@ def d_linear_bounds(f, s, R, db):
                 if de[0] == 'call' and de[1].endswith('DenseMatrix::new') and len(de[2]) == 1:
                     add_le(de[2][0], x); add_le(x, de[2][0])
     goal = LP.lin_addc(LP.lin_sub(X.lin(bound), X.lin(idx)), -1)      # bound - idx - 1 >= 0
+    if sub_goal is not None:
+        try:
+            # only with an actual dominating comparison: ranges alone never justify a subtraction
+            if any(r[0] in ('lt', 'le', 'gt', 'ge', 'eq') for r in G.relations(f, R, s['block'])) and LP.entails(hyps, sub_goal):
+                return f'linear: {X.show(bound, 40)} >= {X.show(idx, 30)} entailed by the dominating comparisons, so the subtraction cannot underflow'
+        except Exception:
+            return None
+        return None
     try:
         if LP.entails(hyps, goal):
             return f'linear bounds: {X.show(idx, 40)} < {X.show(bound, 50)} entailed by the loop ranges and dominating comparisons (Fourier-Motzkin)'
@@ -505,8 +519,22 @@ def offset_invariant(db, fam):
     else:
         sv = agg['start']
         b = m(('call~', 'saturating_sub', (('call~', 'Result::unwrap_or', (('call~', 'read_until', ('_', '_', '$buf')), ('k', 1))), ('k', 1))), sv)
+        if b is None and sv[0] == 'v':
+            # match form: start = match read_until(..) { Ok(n) if n > 0 => n - 1, _ => 0 }: every definition is 0 or (bytes read) - 1
+            vals = []
+            for bi, si, x in g.defs().get(sv[1], []):
+                vals.append(norm(RG.call(x) if si == 'term' else RG.rvalue(x)))
+            okv = bool(vals)
+            for v_ in vals:
+                if v_ == ('k', 0):
+                    continue
+                mm = m(('bin', 'Sub', ('fld', ('down', ('call~', 'read_until', ('_', '_', '$buf')), 'Ok'), '0'), ('k', '$c')), v_)
+                if mm is None or not (isinstance(mm['$c'], int) and mm['$c'] >= 0):
+                    okv = False
+            if okv:
+                b = {}
         if b is None:
-            why.append(f'new(): start = {X.show(sv, 100)} is not read_until(..).unwrap_or(1).saturating_sub(1)')
+            why.append(f'new(): start = {X.show(sv, 100)} is not read_until(..).unwrap_or(1).saturating_sub(1) (nor 0 / bytes read - 1 on every path)')
         else:
             kinds.append('init-within-bytes-read')
     ok = not why and 'advance-by-consumed' in kinds and 'init-within-bytes-read' in kinds
@@ -721,8 +749,14 @@ def read_loops(db, ctx, roots):
                         d = norm(R.operand(tt['discr']))
                         if 'read_line' in X.canon(d) or 'read_until' in X.canon(d):
                             for v, tg in tt['arms']:
-                                if int(v) == 0 and not d[0] == 'discr' and (tg not in L['body'] or leads_out(f, L, tg)):
+                                if int(v) == 0 and not d[0] == 'discr' and tt.get('discr_ty') != 'bool' and (tg not in L['body'] or leads_out(f, L, tg)):
                                     ok = True
+                            if tt.get('discr_ty') == 'bool':
+                                # `if reader.read_line(..)? == 0 { break }`: the edge on which  n == 0  holds must leave the loop
+                                for truth, tg in ((True, tt['otherwise']),) + tuple((False, tg_) for v_, tg_ in tt['arms'] if int(v_) == 0):
+                                    rel = G.as_relation(d, truth)
+                                    if rel[0] == 'eq' and (norm(rel[2]) == ('k', 0) or norm(rel[1]) == ('k', 0)) and (tg not in L['body'] or leads_out(f, L, tg)):
+                                        ok = True
             # the read must be on every cycle: the read block dominates every latch
             every = all(any(f.dominates(bi, l) for bi, _ in reads) for l in L['latches'])
             if ok and every:
